@@ -1785,7 +1785,8 @@ def check_limit(r, rule):
             ok_order = trunc and "sort" in o and o.index("truncate") < o.index("sort") and ("filter" not in o or o.index("sort") < o.index("filter"))
             r.rep.ob(rule, q, ok_order, "truncation happens after sorting, sorting after filtering (no closer true neighbour is cut in favour of a farther or rejected one)", where,
                      expected="sorted(filter(...))[0:limit]", found=" <- ".join(o), key=f"{K} order")
-            key = strip(info["sortkey"]) if info["sortkey"] is not None else None
+            from ..rules import small_rewrites as _small
+            key = strip(rewrite(strip_all(info["sortkey"]), _small)) if info["sortkey"] is not None else None
             ok_key = key is not None and head(key) == "lam" and len(key[2]) == 1 and strip(key[3]) == ("sub", ("lparam", key[1], key[2][0][0]), const(2)) and not info["reverse"]
             r.rep.ob(rule, q, ok_key, "neighbours are ordered ascending by the reported distance", where, expected="key=lambda x: x[2], ascending", found=(show(key, 50) if key is not None else "no key (sorts by position)") + (" reversed" if info["reverse"] else ""), key=f"{K} sort key")
     if n < 2:
